@@ -133,7 +133,7 @@ impl TrainSpec {
         let mut s = String::new();
         for (c, cells) in &self.unk {
             let f = cells.iter().map(|c| render_cell(c, QuoteStyle::Needed)).collect::<Vec<_>>().join(",");
-            s.push_str(&format!("{},0,0,0,{}\n", self.cats[*c].name, f));
+            s.push_str(&format!("{},0,0,0,{}\n", render_cell(&self.cats[*c].name, QuoteStyle::Needed), f));
         }
         s
     }
@@ -308,7 +308,16 @@ pub fn train_spec(max_templates: usize, with_user: bool) -> BoxedStrategy<TrainS
             let mut cats = vec![];
             for (i, (invoke, group, length, chs)) in catraw.iter().take(ncat).enumerate() {
                 cats.push(TCat {
-                    name: if i == 0 { "DEFAULT".into() } else { format!("K{i}") },
+                    // char.def names are white-space-free tokens; unk.def is CSV, so a name may need quoting there
+                    name: if i == 0 {
+                        "DEFAULT".into()
+                    } else {
+                        match (usize::from(*length) + chs.len() + i) % 6 {
+                            0 => format!("K{i},x"),
+                            1 => format!("K\"{i}"),
+                            _ => format!("K{i}"),
+                        }
+                    },
                     invoke: *invoke,
                     group: *group,
                     length: *length,
